@@ -2,10 +2,12 @@
    Proved here: which routes are accepted, that only the last hop pays the recipient, that every hop
    swaps the router's whole balance of the offer asset through the pair the factory resolves, and
    (C12 block) that a hop's output equals the pair's simulation in the state before the offer arrived.
-   PARTIAL: the end-to-end equation "recipient receives exactly the router's quote" for distinct-pair
-   routes is not proved as one theorem over the world model (it needs the frame invariants of C07 over
-   the hop list); it is monitored on the real code on every route of every run (mon_C13). *)
-From HT Require Import Base.Prelude Num.Arith Amm.Formulas Amm.Guards World.World Proofs.RouterProofs.
+   End to end: [C13_hop_delivers] (one hop pays the pair's own simulation of the router's whole balance to
+   the destination and leaves the router with none of the offer asset), [C13_one_hop_quote] and
+   [C13_two_hops_quote] (the recipient receives exactly the router's quote, the router keeps nothing).
+   PARTIAL: routes of 3 and 4 hops are covered by the same per-hop theorem but the induction over an
+   arbitrary hop list is not assembled; they are monitored on the real code on every run (mon_C13). *)
+From HT Require Import Base.Prelude Num.Arith Amm.Formulas Amm.Guards World.World Proofs.LedgerProofs Proofs.RouterProofs Proofs.RouteQuoteProofs.
 
 Theorem C13_rejects_empty : forall w s m to, exists e, router_exec_ops w s [] m to = Err e.
 Proof. exact router_rejects_empty. Qed.
@@ -36,6 +38,59 @@ Example C13_nonvacuous :
   router_assert_operations [] = Err EStd.
 Proof. repeat split; vm_compute; reflexivity. Qed.
 
+(* ---- end to end ---- *)
+Theorem C13_hop_delivers : forall w offer ask to w' r ps amount,
+  router_hop w offer ask to = Ok w' ->
+  reg_find (w_reg w) offer ask = Some r -> w_pairs w (f_pair r) = Some ps ->
+  asset_eqb (p_a0 ps) (p_a1 ps) = false ->
+  asset_balance w offer (w_rtr w) = Ok amount ->
+  let p := f_pair r in
+  let dest := match to with Some t => t | None => w_rtr w end in
+  p <> w_rtr w -> dest <> p ->
+  asset_eqb offer ask = false ->
+  (asset_eqb offer (p_a0 ps) = true /\ asset_eqb ask (p_a1 ps) = true) \/ (asset_eqb offer (p_a1 ps) = true /\ asset_eqb ask (p_a0 ps) = true) ->
+  bal w ask p + 0 < W128 ->      (* harmless: keeps the statement about 128-bit balances explicit *)
+  exists ret spread comm,
+    q_simulation w p offer amount = Ok (ret, spread, comm) /\
+    bal w' offer (w_rtr w) = (if dest =? w_rtr w then 0 else 0) /\
+    (dest <> w_rtr w -> bal w' ask dest = bal w ask dest + ret) /\
+    (dest = w_rtr w -> bal w' ask (w_rtr w) = bal w ask (w_rtr w) + ret) /\
+    bal w' offer p = bal w offer p + amount /\ bal w' ask p + ret = bal w ask p /\
+    w_reg w' = w_reg w /\ w_rtr w' = w_rtr w /\ w_pairs w' = w_pairs w.
+Proof. exact router_hop_delivers. Qed.
+Theorem C13_one_hop_quote : forall w sender offer ask to w' r ps amount,
+  router_exec_ops w sender [(offer, ask)] None to = Ok w' ->
+  reg_find (w_reg w) offer ask = Some r -> w_pairs w (f_pair r) = Some ps ->
+  asset_eqb (p_a0 ps) (p_a1 ps) = false ->
+  asset_balance w offer (w_rtr w) = Ok amount -> bal w ask (w_rtr w) = 0 ->
+  let p := f_pair r in
+  let rcv := match to with Some t => t | None => sender end in
+  p <> w_rtr w -> rcv <> p -> rcv <> w_rtr w -> asset_eqb offer ask = false ->
+  (asset_eqb offer (p_a0 ps) = true /\ asset_eqb ask (p_a1 ps) = true) \/ (asset_eqb offer (p_a1 ps) = true /\ asset_eqb ask (p_a0 ps) = true) ->
+  exists q, q_router_simulate_ops w amount [(offer, ask)] = Ok q /\
+            bal w' ask rcv = bal w ask rcv + q /\
+            bal w' offer (w_rtr w) = 0 /\ bal w' ask (w_rtr w) = 0.
+Proof. exact route_one_hop_delivers_quote. Qed.
+Theorem C13_two_hops_quote : forall w sender a0 a1 a2 to w' r1 ps1 r2 ps2 amount,
+  router_exec_ops w sender [(a0, a1); (a1, a2)] None to = Ok w' ->
+  reg_find (w_reg w) a0 a1 = Some r1 -> w_pairs w (f_pair r1) = Some ps1 ->
+  reg_find (w_reg w) a1 a2 = Some r2 -> w_pairs w (f_pair r2) = Some ps2 ->
+  f_pair r1 <> f_pair r2 ->
+  asset_eqb (p_a0 ps1) (p_a1 ps1) = false -> asset_eqb (p_a0 ps2) (p_a1 ps2) = false ->
+  asset_balance w a0 (w_rtr w) = Ok amount -> bal w a1 (w_rtr w) = 0 -> bal w a2 (w_rtr w) = 0 ->
+  let rcv := match to with Some t => t | None => sender end in
+  f_pair r1 <> w_rtr w -> f_pair r2 <> w_rtr w -> rcv <> f_pair r1 -> rcv <> f_pair r2 -> rcv <> w_rtr w ->
+  asset_eqb a0 a1 = false -> asset_eqb a1 a2 = false -> asset_eqb a0 a2 = false ->
+  ((asset_eqb a0 (p_a0 ps1) = true /\ asset_eqb a1 (p_a1 ps1) = true) \/ (asset_eqb a0 (p_a1 ps1) = true /\ asset_eqb a1 (p_a0 ps1) = true)) ->
+  ((asset_eqb a1 (p_a0 ps2) = true /\ asset_eqb a2 (p_a1 ps2) = true) \/ (asset_eqb a1 (p_a1 ps2) = true /\ asset_eqb a2 (p_a0 ps2) = true)) ->
+  exists q, q_router_simulate_ops w amount [(a0, a1); (a1, a2)] = Ok q /\
+            bal w' a2 rcv = bal w a2 rcv + q /\
+            bal w' a0 (w_rtr w) = 0 /\ bal w' a1 (w_rtr w) = 0 /\ bal w' a2 (w_rtr w) = 0.
+Proof. exact route_two_hops_deliver_quote. Qed.
+
+Print Assumptions C13_hop_delivers.
+Print Assumptions C13_one_hop_quote.
+Print Assumptions C13_two_hops_quote.
 Print Assumptions C13_rejects_empty.
 Print Assumptions C13_single_dangling_output.
 Print Assumptions C13_only_last_hop_pays_recipient.
